@@ -297,6 +297,64 @@ def f_operators(system):
     return fn
 
 
+def f_numpy_pairings(d):
+    """handler priority object < NumPy and the flavor rule in mixed pairings (NumPy lane of C03)"""
+
+    def fn(R):
+        import numpy as _np
+
+        from . import c03
+
+        bad = []
+        n = 0
+        s1 = lanes.ALL_SYS[d][1]
+        s2 = lanes.ALL_SYS[d][-1]
+        calls = [("add", lambda a, b: a.add(b), d, True), ("subtract", lambda a, b: a.subtract(b), d, True), ("op+", lambda a, b: a + b, d, True), ("op-", lambda a, b: a - b, d, True)]
+        if d == 3:
+            calls += [("cross", lambda a, b: a.cross(b), 3, True), ("rotate_axis", lambda a, b: a.rotate_axis(b, R.real("ang", "angle")), 3, False)]
+        if d == 4:
+            calls += [("boost_p4", lambda a, b: a.boost_p4(b), 4, True), ("boost", lambda a, b: a.boost(b), 4, True)]
+        for pairing in ("nn", "no", "on"):
+            for m1, m2 in itertools.product((False, True), repeat=2):
+                tag = f"{pairing}{int(m1)}{int(m2)}"
+                if pairing[0] == "n":
+                    a, _ = c03.np_operand(R, s1, "a" + tag, (2,), m1)
+                else:
+                    a = lanes.build(c03.lane(R)[0], s1, lanes.stored(R.vec(s1, "a" + tag, momentum=m1, offaxis=True))[1], m1)
+                if pairing[1] == "n":
+                    b, _ = c03.np_operand(R, s2, "b" + tag, (2,), m2)
+                else:
+                    b = lanes.build(c03.lane(R)[0], s2, lanes.stored(R.vec(s2, "b" + tag, momentum=m2, offaxis=True))[1], m2)
+                for label, call, rdim, counted in calls:
+                    if not counted and pairing == "on":
+                        continue  # the axis is a secondary argument: an object vector stays an object (outside this lattice)
+                    n += 1
+                    try:
+                        r = call(a, b)
+                    except core_SymbolicBranch:
+                        continue
+                    except Exception as e:
+                        bad.append(f"{label}/{tag}: raised {type(e).__name__}: {str(e)[:60]}")
+                        continue
+                    if not isinstance(r, Vector):
+                        bad.append(f"{label}/{tag}: result {type(r).__name__}")
+                        continue
+                    if not isinstance(r, _np.ndarray) and (counted or pairing[0] == "n"):
+                        bad.append(f"{label}/{tag}: backend of the result is {type(r).__name__}, an array operand has priority")
+                    want_m = (m1 or m2) if counted else m1
+                    if _is_mom(r) != want_m:
+                        bad.append(f"{label}/{tag}: flavor {type(r).__name__}, momentum expected: {want_m}")
+                    nd = 2 + ("z" in r.dtype.names or "theta" in r.dtype.names or "eta" in r.dtype.names) + ("t" in r.dtype.names or "tau" in r.dtype.names) if isinstance(r, _np.ndarray) else _dim(r)
+                    if nd != rdim:
+                        bad.append(f"{label}/{tag}: dimension {nd} != {rdim}")
+        return [(f"lattice-{n}-points", G.true(not bad, "; ".join(bad[:6])))] + [(f"mismatch:{b[:90]}", G.true(False, b)) for b in bad[:10]]
+
+    return fn
+
+
+from symx.core import SymbolicBranch as core_SymbolicBranch  # noqa: E402
+
+
 def families(tier="quick"):
     fams = []
     M = "vector._methods."
@@ -314,6 +372,8 @@ def families(tier="quick"):
                 add(f"binary/{name}/{d1}Dx{d2}D", f_binary_lattice(name, d1, d2), [M + "_flavor_of", M + "_handler_of", M + "_maybe_same_dimension_error", M + "_compute_module_of", M + "dim"])
                 if BINARY[name][0] == "same" and d1 != d2:
                     add(f"like/{name}/{d1}Dx{d2}D", f_like_fixes(name, d1, d2), [M + "Vector.like"])
+    for d in (2, 3, 4):
+        add(f"numpy-pairings/{d}D", f_numpy_pairings(d), [M + "_handler_of", M + "_flavor_of", M + "_get_handler_index", "vector.backends.numpy.VectorNumpy.__array_ufunc__"])
     for d in (2, 3, 4):
         for s in lanes.ALL_SYS[d]:
             add(f"operators/{lanes.sysname(s)}", f_operators(s), ["vector.backends.object.VectorObject.__array_ufunc__", "vector.backends.object.VectorObject.__add__"])
